@@ -352,4 +352,109 @@ theorem mergeSafe_of_clause (s : SchemaD) (hs : SchemaWf s) (hro : RootsAreObjec
       exact ⟨e1, e2, r1, r2, hclause _ _ hS _ hA _ _ _ hc1 hc2⟩
     exact ms_of_good s hs env d vars mf hclause hr _ _ (Nat.lt_succ_self _) hg
 
+
+/-! ### from the silent rule visitors -/
+
+/-- parser guarantee: an alias is never the empty name -/
+def AliasesNonEmpty (d : Validate.Doc) : Prop :=
+  ∀ i sels, SelSet d i sels → ∀ al name args dirs hs id sub,
+    Validate.Sel.field al name args dirs hs id sub ∈ sels → al ≠ some ""
+
+/-- schema fact: only object and interface types carry fields (what `canon_schema.dump_schema` produces) -/
+def FieldOwners (s : SchemaD) : Prop := ∀ T name fd, Exec.fieldOf s T name = some fd → Validate.fieldOf s T name = some fd
+
+/-- computable form of `FieldOwners` -/
+def fieldOwnersB (s : SchemaD) : Bool :=
+  s.types.all fun t => t.fields.isEmpty || t.kind == .object || t.kind == .interface
+
+theorem fieldOwners_of_check (s : SchemaD) (h : fieldOwnersB s = true) : FieldOwners s := by
+  intro T name fd hf
+  unfold Exec.fieldOf at hf
+  unfold Validate.fieldOf Validate.isObjOrIface Validate.kindOf
+  cases ht : s.findType T with
+  | none => simp [ht] at hf
+  | some t =>
+    simp only [ht] at hf
+    have hm : t ∈ s.types := List.mem_of_find?_eq_some ht
+    unfold fieldOwnersB at h
+    rw [List.all_eq_true] at h
+    have := h t hm
+    have hne : t.fields.isEmpty = false := by
+      cases hfs : t.fields with
+      | nil => simp [hfs] at hf
+      | cons _ _ => rfl
+    simp only [hne, Bool.false_or, Bool.or_eq_true, beq_iff_eq] at this
+    rcases this with hk | hk <;> simp [hk, hf]
+
+/-- **mergeSafe_of_silent** — `MergeSafe` from what `validate_ast(...) == []` gives: the memoised
+    OverlappingFieldsCanBeMerged search reports nothing, and so do FieldsOnCorrectType, ScalarLeafs, KnownFragmentNames,
+    FragmentsOnCompositeTypes, UniqueFragmentNames, NoFragmentCycles and UniqueArgumentNames. `DocChecksMemo` (distinct
+    selection-set identities, no meta field with a sub-selection) are the two computable checks of
+    `C06.rule_overlapping_fields_memo_iff_wf`. -/
+theorem mergeSafe_of_silent (s : SchemaD) (hs : SchemaWf s) (hro : RootsAreObjects s) (hfo : FieldOwners s)
+    (fx : Validate.Fixes) (hv11 : fx.v11 = true) (h7 : fx.v7 = true) (env : Exec.ArgEnv) (d : Validate.Doc) (vars : Exec.Vars)
+    (h1 : C06.Silent s fx .fieldsOnCorrectType d) (h2 : C06.Silent s fx .scalarLeafs d)
+    (h3 : C06.Silent s fx .knownFragmentNames d) (h4 : C06.Silent s fx .fragmentsOnCompositeTypes d)
+    (h5 : C06.Silent s fx .uniqueFragmentNames d) (h6 : C06.Silent s fx .noFragmentCycles d)
+    (hu : C06.Silent s fx .uniqueArgumentNames d) (h0 : (Validate.overlapMemoRun s fx d).1 = 0)
+    (hck : C06.DocChecksMemo s d) (hne : ∀ f ∈ Validate.Spec.fragNames d, f ≠ "") (hal : AliasesNonEmpty d)
+    (hni : NoIntrospection s d) : MergeSafe s (eDoc s env d) := by
+  have hsl := (C06.rule_scalar_leafs_iff s fx d).mp h2
+  have hfc := (C06.rule_fragments_on_composite_types_iff s fx d).mp h4
+  have hclause := (C06.rule_overlapping_fields_memo_iff_wf s fx h7 d hck hne hs.outputs hsl hfc).mp h0
+  have mf : MergeFacts s env d vars :=
+    { aliases := hal
+      uniqueArgs := ((C06.rule_unique_argument_names_iff s fx d).mp hu).1
+      valid := rules_accept_validDocR s hs hro fx hv11 env d vars h1 h2 h3 h4 h5 h6 hne hni
+      owners := hfo }
+  exact mergeSafe_of_clause s hs hro env d vars mf (rules_accept_ranked s fx hv11 env d h3 h5 h6 hne) hclause
+
+/-- **accepted_cannot_go_wrong_merged** — C05's execution half WITHOUT the hypothesis `MergeSafe`: every one of the 26
+    rule visitors is silent (`C06.SilentM`: OverlappingFieldsCanBeMerged is the MEMOISED search /repo runs), the schema
+    facts, the two static document checks, the parser guarantees (non-empty fragment names and aliases), no
+    `__schema` / `__type` selection, a typed world ⇒ no request on the translated document ends in an internal exception. -/
+theorem accepted_cannot_go_wrong_merged (s : SchemaD) (hs : SchemaWf s) (hso : SchemaOk s) (hro : RootsAreObjects s)
+    (hfo : FieldOwners s) (fx : Validate.Fixes) (hv11 : fx.v11 = true) (h7 : fx.v7 = true) (env : Exec.ArgEnv)
+    (d : Validate.Doc) (vars : Exec.Vars)
+    (hacc : ∀ r ∈ Validate.Rule.all, C06.SilentM s fx r d)
+    (hck : C06.DocChecksMemo s d) (hne : ∀ f ∈ Validate.Spec.fragNames d, f ≠ "") (hal : AliasesNonEmpty d)
+    (hni : NoIntrospection s d) (w : Exec.World) (hw : WorldTyped s w) :
+    ∀ (op : Option String) (fuel cf : Nat) (cls : String), Exec.execute s (eDoc s env d) vars w op fuel cf ≠ .failed (.internal cls) := by
+  have sil : ∀ r, r ∈ Validate.Rule.all → r ≠ .overlappingFieldsCanBeMerged → C06.Silent s fx r d :=
+    fun r hr hn => (C06.silentM_of_ne hn).mp (hacc r hr)
+  have h0 : (Validate.overlapMemoRun s fx d).1 = 0 := by
+    have := hacc .overlappingFieldsCanBeMerged (by decide)
+    unfold C06.SilentM at this
+    simpa using this
+  have h1 := sil .fieldsOnCorrectType (by decide) (by decide)
+  have h2 := sil .scalarLeafs (by decide) (by decide)
+  have h3 := sil .knownFragmentNames (by decide) (by decide)
+  have h4 := sil .fragmentsOnCompositeTypes (by decide) (by decide)
+  have h5 := sil .uniqueFragmentNames (by decide) (by decide)
+  have h6 := sil .noFragmentCycles (by decide) (by decide)
+  have hu := sil .uniqueArgumentNames (by decide) (by decide)
+  exact rules_accept_cannot_go_wrong_rootless s hs hso hro fx hv11 env d vars h1 h2 h3 h4 h5 h6 hne hni
+    (mergeSafe_of_silent s hs hro hfo fx hv11 h7 env d vars h1 h2 h3 h4 h5 h6 hu h0 hck hne hal hni) w hw
+
+/-! non-vacuity: a document with a fragment, an inline fragment, aliases, arguments (literal and variable)
+    and `__typename`, on the bridge's schema with a query root: every rule visitor is silent (the memoised overlap search
+    included) and the static checks hold; the variant in which the fragment selects `a(n: $v)` under the key `a` (the operation: `a(n: null)`) is
+    reported by the memoised search -/
+def mgDoc (n : Validate.Value) : Validate.Doc :=
+  { defs := [.op "query" none [⟨"v", .named "Int", none, [], rfl⟩] [] 1
+               [.field none "a" [⟨"n", .null⟩] [] false 0 [], .spread "F" [],
+                .inline (some "Query") [] 2 [.field (some "k") "o" [] [] true 3 [.field none "x" [] [] false 0 [], .field none "__typename" [] [] false 0 []]]],
+             .frag "F" "Query" [] 4 [.field (some "b") "a" [⟨"n", .var "v"⟩] [] false 0 [], .field none "a" [⟨"n", n⟩] [] false 0 []]] }
+example : fieldOwnersB brSchemaQ = true := by decide
+example : C06.DocChecksMemo brSchemaQ (mgDoc .null) := ⟨by decide, by decide⟩
+example : ∀ r ∈ Validate.Rule.all, C06.SilentM brSchemaQ Validate.Fixes.all r (mgDoc .null) := by
+  have h : ∀ r ∈ Validate.Rule.all, C06.Silent brSchemaQ Validate.Fixes.all r (mgDoc .null) := by
+    unfold C06.Silent; decide +kernel
+  intro r hr
+  unfold C06.SilentM
+  split
+  · decide +kernel
+  · exact h r hr
+example : (Validate.overlapMemoRun brSchemaQ Validate.Fixes.all (mgDoc (.var "v"))).1 ≠ 0 := by decide +kernel
+
 end PyGql.Props.C05
